@@ -776,6 +776,15 @@ def rule_shortcut_values_are_entry_names(ctx):
               "(OSError 36, ValueError for NUL, NotADirectoryError) where the memory store answers, and an alias of an entry "
               "('ipv4-addr/', './<id>') returns the object more than once", file=rel, line=joins[0].lineno, function=fi.qualname,
               expected="if os.path.basename(name) != name ...: continue, before os.path.join", found=short(joins[0]))
+    # '.' and '..' ARE their own basename, and they are entries of every directory: as a type value '..' names the PARENT of the
+    # store, whose .json files are then answered as if they were stored here (the sink's name test refuses both; the reader's
+    # must agree with it)
+    consts = {c_.value for st_ in skips for c_ in ast.walk(st_.test) if isinstance(c_, ast.Constant) and isinstance(c_.value, str)}
+    run.check({".", ".."} <= consts, R, key(rel, fi.qualname, "dot-names-are-no-entries"),
+              "the names '.' and '..' pass the single-file-name test of the type / id shortcut (each is its own basename): "
+              "Filter('type', '=', '..') searches the PARENT of the store directory as a type directory and answers objects from "
+              "JSON files lying next to the store, which were never stored", file=rel, line=skips[0].lineno if skips else lp.lineno,
+              function=fi.qualname, expected="the skip test also names '.' and '..' (as the sink's test does)", found=sorted(consts))
     handlers = [h for t in ast.walk(lp) if isinstance(t, ast.Try) for h in t.handlers]
     tolerated = " ".join(norm(x) for h in handlers for x in ast.walk(h) if isinstance(x, ast.Compare))
     run.check("ENOENT" in tolerated and "ENAMETOOLONG" in tolerated, R, key(rel, fi.qualname, "over-long-name-is-no-entry"),
